@@ -87,6 +87,7 @@ def evict_caches(which: int = 3) -> None:
 
 def canonical_start(warm: list) -> None:
     """Put process-wide state into a seed-determined state: caches cleared then pre-warmed in the given order."""
+    reset_process_state()
     evict_caches(3)
     for w in warm:
         if w[0] == "e":
@@ -157,12 +158,73 @@ def discover_globals() -> list[tuple[str, object]]:
 
 GLOBALS: list[tuple[str, object]] = []
 _GLOBAL_SNAPS: list = []
+CONTAINERS: list[tuple[str, object, object]] = []   # (name, live container, shallow copy taken at start-up)
+CLEARABLE: list[tuple[str, object]] = []            # functools caches etc. (objects with cache_clear)
+
+
+def discover_containers() -> None:
+    """Every mutable container that lives at module or class level in the geometer package (today: the two
+    `_cache` dicts and constant tables such as DISPATCHED_UFUNCS). A run starts by restoring each of them to its
+    start-up contents, so that a run is a pure function of its seed even if a later version of the library adds
+    process-wide memoisation the harness has never heard of."""
+    import sys
+
+    CONTAINERS.clear()
+    CLEARABLE.clear()
+    seen: set[int] = set()
+
+    def add(name, v):
+        if id(v) in seen:
+            return
+        if isinstance(v, (dict, list, set)) :
+            seen.add(id(v))
+            CONTAINERS.append((name, v, type(v)(v)))
+        elif hasattr(v, "cache_clear") and callable(getattr(v, "cache_clear", None)):
+            seen.add(id(v))
+            CLEARABLE.append((name, v))
+
+    for mname in sorted(sys.modules):
+        if not (mname == "geometer" or mname.startswith("geometer.")):
+            continue
+        m = sys.modules[mname]
+        for k in sorted(vars(m)):
+            v = vars(m)[k]
+            if k.startswith("__"):
+                continue
+            if isinstance(v, type) and v.__module__ == mname:
+                for ck in sorted(vars(v)):
+                    if ck.startswith("__"):
+                        continue
+                    cv = vars(v)[ck]
+                    add(f"{mname}.{k}.{ck}", cv)
+                    f = getattr(cv, "__func__", cv)
+                    add(f"{mname}.{k}.{ck}", f)
+            else:
+                add(f"{mname}.{k}", v)
+
+
+def reset_process_state() -> None:
+    for _name, live, saved in CONTAINERS:
+        if isinstance(live, dict):
+            live.clear()
+            live.update(saved)
+        elif isinstance(live, set):
+            live.clear()
+            live.update(saved)
+        else:
+            live[:] = saved
+    for _name, f in CLEARABLE:
+        try:
+            f.cache_clear()
+        except Exception:  # noqa: BLE001
+            pass
 
 
 def init_globals() -> None:
     global GLOBALS, _GLOBAL_SNAPS
     GLOBALS = discover_globals()
     _GLOBAL_SNAPS = [snapshot.snap(o) for _n, o in GLOBALS]
+    discover_containers()
 
 
 def check_globals() -> list[tuple[str, str, str]]:
